@@ -25,9 +25,10 @@ open Gallia Gallia.Proto Gallia.Server Gallia.VEcu Gallia.VEcuConn
         the same with `last_time_active` and the two clock reads of handle_request (`VEcu.vecuHandleSE`, every default
         behaviour on), all in ticks of 0.25 s
     ->  as for sreq, with ` la=<last_time_active> len=<reply length|-> ` in front of `ready=`
-    copen <t0>                                   a new connection (`VEcuConn.Sys.opened`), transport created at tick t0 -> `ok`
+    copen <t0> [limit]                           a new connection (`VEcuConn.Sys.opened`), transport created at tick t0, reader limit
+                                                 (default 65536) -> `ok`
     cline <linehex> <start> <stop> <oracle x6>   the server's loop gets the complete line <line> + "\n" (raw bytes)
-    ->  `alive=<0|1> end=<-|eof|badline|assertion|index> served=<n> st=<session> <level> <seed> la=<n> written=<hex|->`
+    ->  `alive=<0|1> end=<-|eof|badline|line-too-long|assertion|index> served=<n> st=<session> <level> <seed> la=<n> written=<hex|->`
     cxchg <pduhex> <start> <stop> <oracle x6>    `client.request(pdu)` over the connection (`VEcuConn.exchange`)
     ->  as cline, then ` client=<accepted|mismatch|malformed|timeout|closed|badline> rbuf=<hex|-> sbuf=<hex|->`
     ceof                                         the peer closes -> `alive=0 end=<...> served=<n> epilogue=<ok|zerodiv>`
@@ -149,6 +150,7 @@ def showEnd : Option EndCause → String
   | none => "-"
   | some .eof => "eof"
   | some .badLine => "badline"
+  | some .tooLong => "line-too-long"
   | some (.raised .assertion) => "assertion"
   | some (.raised .index) => "index"
 
@@ -168,6 +170,9 @@ def step (s : St) (line : String) : St × String :=
   | ["copen", t0] => match t0.toNat? with
     | some t => ({ s with sys := Sys.opened t }, "ok")
     | none => (s, "bad-op")
+  | ["copen", t0, lim] => match t0.toNat?, lim.toNat? with
+    | some t, some l => ({ s with sys := Sys.opened t l }, "ok")
+    | _, _ => (s, "bad-op")
   | ["cline", hx, start, stop, bools, byte, paylen, payhex, dtccount, dtcs] =>
     match parseHex hx, start.toNat?, stop.toNat?, parseOrc bools byte paylen payhex dtccount dtcs with
     | some l, some t0, some t1, some o =>
